@@ -44,6 +44,8 @@ type lockCfg struct {
 	// DoubleSignFraction, when set, replaces the double-sign slash fraction (e.g. "-0.05"); a
 	// configuration is only explored if the chain's own genesis validation admits it
 	DoubleSignFraction string `json:"double_sign_fraction,omitempty"`
+	// SubSecond: the menu's block times carry a sub-second part, as consensus (median) times do
+	SubSecond bool `json:"sub_second_block_times,omitempty"`
 }
 
 // admitted reports whether the module's own parameter validation accepts the configuration.
